@@ -116,12 +116,14 @@ Section TwinElement.
     - cbn [decodeABIElement_c decodeABIElement].
       destruct (isDynamicType (TCFixedArr len ch k)).
       + rewrite cbind_fst. apply bind_ext; auto. intros ho.
+        destruct ((len >? 0) && ((len - 1) * 32 >=? zlen block - (hs + ho))); auto.
         destruct (len <? 0); auto.
         rewrite charge_fst, cbind_fst. apply bind_ext; [|intros [a b]; reflexivity].
         unfold walkDynamicChildArrayABIBytes_rep_c, walkDynamicChildArrayABIBytes_rep.
         rewrite charge_fst, cbind_fst. apply bind_ext; [|intros [a b]; reflexivity].
         rewrite loop_elems_c_fst. apply loop_elems_ext. intros p. apply IH.
       + unfold decodeABIFixedArrayBytes_c, decodeABIFixedArrayBytes.
+        destruct ((len >? 0) && occupiesHeadBytes ch && ((len - 1) * 32 >=? zlen block - hp)); auto.
         destruct (len <? 0); auto.
         rewrite charge_fst, cbind_fst. apply bind_ext; [|intros [a b]; reflexivity].
         rewrite loop_elems_c_fst. apply loop_elems_ext. intros p. apply IH.
@@ -421,6 +423,16 @@ Section Loop.
   Qed.
 End Loop.
 
+Lemma isDynamic_occupies c : dec_valid c = true -> isDynamicType c = true -> occupiesHeadBytes c = true.
+Proof.
+  induction c as [e s m n k|len ch k IH|ch k IH|l k IH] using tcomp_ind'; intros Hv Hd; try reflexivity.
+  - cbn [dec_valid] in Hv. apply andb_true_iff in Hv as [Hl Hv]. cbn [isDynamicType occupiesHeadBytes] in *.
+    destruct (len =? 0) eqn:E; [discriminate|]. rewrite (IH Hv Hd). lia.
+  - cbn [dec_valid isDynamicType occupiesHeadBytes] in *. rewrite forallb_forall in Hv.
+    apply existsb_exists in Hd as [x [Hx Hdx]]. apply existsb_exists. exists x. split; auto.
+    rewrite Forall_forall in IH. apply IH; auto.
+Qed.
+
 (* ------------------------------------------------------------------------------------------------
    the main induction
    ------------------------------------------------------------------------------------------------ *)
@@ -467,23 +479,45 @@ Section Main.
       assert (Hch : forall hs', 0 <= hs' -> forall pos, 0 <= pos ->
                 good (no_zero_size_elem ch = true) (decodeABIElement_c block ch hs' pos) (fun nx => 0 <= fst nx) (bound ch N0)).
       { intros hs' H1 pos H2. apply IH; auto. }
-      destruct (isDynamicType (TCFixedArr len ch k)).
-      + eapply good_weaken with (Q := nonneg_head)
-          (k := (0 + (Z.to_N len + ((1 + Z.to_N len) + (Z.to_N len * bound ch N0 + 0) + 0)))%N); [|intros HH; exact HH|intros aa HH; exact HH|intros; lia].
+      set (K := fixed_count len (occupiesHeadBytes ch) N0).
+      destruct (isDynamicType (TCFixedArr len ch k)) eqn:Edyn.
+      + assert (Hocc : occupiesHeadBytes ch = true).
+        { cbn [isDynamicType] in Edyn. destruct (len =? 0); [discriminate|]. apply isDynamic_occupies; auto. }
+        eapply good_weaken with (Q := nonneg_head) (k := (0 + (1 + 2 * K + K * bound ch N0))%N);
+          [|intros HH; exact HH|intros aa HH; exact HH|intros; lia].
         eapply good_bind; [apply good_length; auto|]. intros ho [Hho _].
-        replace (len <? 0) with false by lia.
-        apply good_charge.
-        eapply good_bind with (Q := fun _ => True).
-        * unfold walkDynamicChildArrayABIBytes_rep_c. apply good_charge.
+        destruct ((len >? 0) && ((len - 1) * 32 >=? zlen block - (hs + ho))) eqn:G.
+        * apply (good_weaken (no_zero_size_elem ch = true) _ _ nonneg_head nonneg_head 0%N _);
+            [apply good_err|auto|auto|intros; lia].
+        * replace (len <? 0) with false by lia.
+          assert (HK : Z.to_N len = K).
+          { unfold K, fixed_count. rewrite Hocc.
+            assert ((Z.to_N len <= N0 / 32 + 1)%N); [|lia].
+            apply (count_le_bound len (hs + ho)); [lia|lia|first [lia|rewrite andb_true_r; exact G]]. }
+          eapply good_weaken with (Q := nonneg_head)
+            (k := (Z.to_N len + ((1 + Z.to_N len) + (Z.to_N len * bound ch N0 + 0) + 0))%N);
+            [|intros HH; exact HH|intros aa HH; exact HH|intros; rewrite HK; lia].
+          apply good_charge.
+          eapply good_bind with (Q := fun _ => True).
+          -- unfold walkDynamicChildArrayABIBytes_rep_c. apply good_charge.
+             eapply good_bind; [apply loop_elems_c_good; [apply Hch|]; lia|].
+             intros [rd chs] _. apply good_ret. exact I.
+          -- intros [a x] _. apply good_ret. unfold nonneg_head. simpl. lia.
+      + unfold decodeABIFixedArrayBytes_c.
+        destruct ((len >? 0) && occupiesHeadBytes ch && ((len - 1) * 32 >=? zlen block - hp)) eqn:G.
+        * apply (good_weaken (no_zero_size_elem ch = true) _ _ nonneg_head nonneg_head 0%N _);
+            [apply good_err|auto|auto|intros; lia].
+        * replace (len <? 0) with false by lia.
+          assert (HK : Z.to_N len = K).
+          { unfold K, fixed_count. destruct (occupiesHeadBytes ch) eqn:Hocc; [|reflexivity].
+            assert ((Z.to_N len <= N0 / 32 + 1)%N); [|lia].
+            apply (count_le_bound len hp); [lia|lia|first [lia|exact G]]. }
+          eapply good_weaken with (Q := nonneg_head)
+            (k := ((1 + Z.to_N len) + (Z.to_N len * bound ch N0 + 0))%N);
+            [|intros HH; exact HH|intros aa HH; exact HH|intros; rewrite HK; lia].
+          apply good_charge.
           eapply good_bind; [apply loop_elems_c_good; [apply Hch|]; lia|].
-          intros [rd chs] _. apply good_ret. exact I.
-        * intros [a x] _. apply good_ret. unfold nonneg_head. simpl. lia.
-      + unfold decodeABIFixedArrayBytes_c. replace (len <? 0) with false by lia.
-        eapply good_weaken with (Q := nonneg_head)
-          (k := ((1 + Z.to_N len) + (Z.to_N len * bound ch N0 + 0))%N); [|intros HH; exact HH|intros aa HH; exact HH|intros; lia].
-        apply good_charge.
-        eapply good_bind; [apply loop_elems_c_good; [apply Hch|]; lia|].
-        intros [rd chs] Hrd. apply good_ret. exact Hrd.
+          intros [rd chs] Hrd. apply good_ret. exact Hrd.
     - (* dynamic array *)
       cbn [dec_valid] in Hv.
       cbn [decodeABIElement_c no_zero_size_elem bound].
@@ -653,7 +687,9 @@ Qed.
    dynamic arrays; nothing but the type and the length enters *)
 Lemma bound_dyn ch k n : bound (TCDynArr ch k) n = (1 + (n / 32 + 1) + (n / 32 + 1) * bound ch n)%N.
 Proof. reflexivity. Qed.
-Lemma bound_fixed len ch k n : bound (TCFixedArr len ch k) n = (1 + 2 * Z.to_N len + Z.to_N len * bound ch n)%N.
+Lemma bound_fixed len ch k n :
+  bound (TCFixedArr len ch k) n =
+  (let c := fixed_count len (occupiesHeadBytes ch) n in 1 + 2 * c + c * bound ch n)%N.
 Proof. reflexivity. Qed.
 Lemma bound_tuple l k n :
   bound (TCTuple l k) n = (1 + N.of_nat (length l) + fold_right (fun ch acc => bound ch n + acc) 0 l)%N.
@@ -663,7 +699,11 @@ Lemma bound_mono c : forall n n', (n <= n')%N -> (bound c n <= bound c n')%N.
 Proof.
   induction c as [e s m n0 k|len ch k IH|ch k IH|l k IH] using tcomp_ind'; intros n n' H.
   - cbn [bound]. destruct (decoder_of e); try lia; destruct (m =? 0)%N; lia.
-  - cbn [bound]. specialize (IH n n' H). nia.
+  - cbn [bound]. specialize (IH n n' H).
+    assert (n / 32 <= n' / 32)%N by (apply N.div_le_mono; lia).
+    assert (fixed_count len (occupiesHeadBytes ch) n <= fixed_count len (occupiesHeadBytes ch) n')%N
+      by (unfold fixed_count; destruct (occupiesHeadBytes ch); lia).
+    nia.
   - cbn [bound]. specialize (IH n n' H).
     assert (n / 32 <= n' / 32)%N by (apply N.div_le_mono; lia). nia.
   - cbn [bound]. induction IH as [|x r Hx Hr IHr]; cbn [fold_right length]; [lia|].
